@@ -73,6 +73,8 @@ fn run() {
     // the offending response is produced after a write and together with a transfer
     let body = Script::new()
         .write("touched", "1")
+        // a short VALID event first: every event of a response is checked, not the shortest one (seed C13k)
+        .then(Step::Event { ty: "ok".into(), attrs: vec![("fine".into(), "1".into())] })
         .then(bad_step(wh, s, val))
         .sub(BankMsg::Send { to_address: sink.to_string(), amount: vec![coin(amt, "x")] }, ReplyOn::Never, 9, None);
     let entry = choose(6);
